@@ -26,7 +26,7 @@ use rustc_middle::ty::{self, GenericArgsRef, Instance, InstanceKind, Ty, TyCtxt,
 use rustc_span::Span;
 use std::fmt::Write as _;
 
-const VERSION: &str = "qvfacts-7";
+const VERSION: &str = "qvfacts-8";
 
 fn esc(s: &str, out: &mut String) {
     out.push('"');
@@ -196,6 +196,9 @@ impl<'tcx> Cx<'tcx> {
                 let mut named = String::new();
                 if let Const::Unevaluated(uv, _) = c.const_ {
                     named = self.path(uv.def);
+                    if let Some(p) = uv.promoted {
+                        named = format!("{}::promoted[{}]", named, p.as_usize());
+                    }
                 }
                 let is_scalar = ty.is_integral() || ty.is_bool() || ty.is_char();
                 if is_scalar {
@@ -985,6 +988,21 @@ impl Callbacks for Cb {
             first = false;
             out.push_str(&s);
             nbodies += 1;
+            if kind != "const" {
+                let proms = tcx.promoted_mir(def_id);
+                for (pi, pb) in proms.iter_enumerated() {
+                    let mut ps = String::new();
+                    cx.body(did, pb, "promoted", &mut ps);
+                    // give the promoted body its own id
+                    let pid = format!("{}::promoted[{}]", cx.path(def_id), pi.as_usize());
+                    let needle = format!("{{\"id\":{}", js(&cx.path(def_id)));
+                    if ps.starts_with(&needle) {
+                        ps = format!("{{\"id\":{}{}", js(&pid), &ps[needle.len()..]);
+                    }
+                    out.push(',');
+                    out.push_str(&ps);
+                }
+            }
         }
         out.push_str("],\"adts\":[");
         cx.adts(&mut out);
